@@ -51,6 +51,7 @@ type Frame struct {
 	depth   int
 	defers  []*ssa.Defer
 	deferAt map[*ssa.Defer][]Val
+	deferGuard map[*ssa.Defer]*Term
 	loops   map[*ssa.BasicBlock]*loopInfo
 	order   []*ssa.BasicBlock
 	entry   *State // state at activation (for old() in inlined loop invariants)
@@ -575,12 +576,22 @@ func (u *Unit) freshOfTypeAt(st *State, hint string, t types.Type) *Term {
 // assumeTyping: the typing invariant of a value of Go type t; with a state, the
 // references it holds are allocated in that state (memory safety).
 func (u *Unit) assumeTyping(guard *Term, v *Term, t types.Type, st *State) {
+	var al *Term
+	if st != nil && !u.quiet {
+		al = u.allocSet(st)
+	}
+	u.assumeTypingIn(guard, v, t, al)
+}
+
+// assumeTypingIn: as assumeTyping, with the allocation set the references are
+// known to belong to given explicitly (nil: no allocation fact).
+func (u *Unit) assumeTypingIn(guard *Term, v *Term, t types.Type, al *Term) {
 	if u.quiet || v.bound {
 		return
 	}
 	allocd := func(ref *Term) {
-		if st != nil {
-			u.assume(guard, u.m.tb.Or(u.m.tb.Eq(ref, u.m.tb.Int(0)), u.m.tb.Select(u.allocSet(st), ref)))
+		if al != nil {
+			u.assume(guard, u.m.tb.Or(u.m.tb.Eq(ref, u.m.tb.Int(0)), u.m.tb.Select(al, ref)))
 		}
 	}
 	if _, ok := t.(*types.TypeParam); ok {
@@ -604,7 +615,7 @@ func (u *Unit) assumeTyping(guard *Term, v *Term, t types.Type, st *State) {
 		u.assume(guard, u.m.tb.Le(u.m.tb.Int(0), v))
 	case *types.Struct:
 		for i := 0; i < tt.NumFields(); i++ {
-			u.assumeTyping(guard, u.m.StructField(v, t, i), tt.Field(i).Type(), st)
+			u.assumeTypingIn(guard, u.m.StructField(v, t, i), tt.Field(i).Type(), al)
 		}
 	}
 }
@@ -752,10 +763,28 @@ func (u *Unit) step(fr *Frame, st *State, ins ssa.Instruction) {
 		}
 		fr.deferAt[x] = args
 		fr.defers = append(fr.defers, x)
+		if fr.deferGuard == nil {
+			fr.deferGuard = map[*ssa.Defer]*Term{}
+		}
+		fr.deferGuard[x] = st.guard // the paths on which this defer statement was executed
 	case *ssa.RunDefers:
 		for i := len(fr.defers) - 1; i >= 0; i-- {
 			d := fr.defers[i]
-			u.callDeferred(fr, st, d)
+			g := fr.deferGuard[d]
+			if g == nil || isTrue(g) {
+				u.callDeferred(fr, st, d)
+				continue
+			}
+			// a defer registered conditionally runs only on the paths that registered it
+			yes := st.clone()
+			yes.guard = tb.And(st.guard, g)
+			no := st.clone()
+			no.guard = tb.And(st.guard, tb.Not(g))
+			if !isFalse(yes.guard) {
+				u.callDeferred(fr, yes, d)
+			}
+			merged := u.mergeStates([]inEdge{{st: yes}, {st: no}})
+			*st = *merged
 		}
 	case *ssa.Select, *ssa.Send, *ssa.Go:
 		panic(u.errf("%T is outside the subset", ins))
@@ -961,6 +990,19 @@ func (u *Unit) equal(st *State, a, b Val, t types.Type, pos token.Pos) *Term {
 		}
 		pa, ok1 := a.(*Ptr)
 		pb, ok2 := b.(*Ptr)
+		// merged pointers: compare each side
+		if ok1 && pa.kind == pCond {
+			return tb.Ite(pa.cond, u.equal(st, pa.pa, b, t, pos), u.equal(st, pa.pb, b, t, pos))
+		}
+		if ok2 && pb.kind == pCond {
+			return tb.Ite(pb.cond, u.equal(st, a, pb.pa, t, pos), u.equal(st, a, pb.pb, t, pos))
+		}
+		if ok1 && pa.kind == pNil && bok {
+			return tb.Eq(bt, tb.Int(0))
+		}
+		if ok2 && pb.kind == pNil && aok {
+			return tb.Eq(at, tb.Int(0))
+		}
 		// an executor-level pointer (address of a local, field or element) is never nil
 		if ok1 && bok {
 			if v, isLit := bt.intLit(); isLit && v.Sign() == 0 {
@@ -1143,6 +1185,10 @@ func (u *Unit) typeAssert(fr *Frame, st *State, x *ssa.TypeAssert) Val {
 		u.assume(tb.And(st.guard, ok), tb.Eq(tb.App(name, SInt, res.(*Term)), m.IfaceVal(v)))
 	}
 	if x.CommaOk {
+		// a failed comma-ok assertion yields the zero value of the asserted type
+		if rt, isTerm := res.(*Term); isTerm {
+			res = tb.Ite(ok, rt, m.Zero(x.AssertedType))
+		}
 		return Tuple{res, ok}
 	}
 	u.oblige("assert-type", "", st, ok, x.Pos(), "type assertion "+x.AssertedType.String())
